@@ -20,6 +20,7 @@ Answer: `sel=<name|-> inm=<hex|~> sent=<status>[hdr]|- log=<events|-> live=[hdr]
 -/
 import CaddyModel.C15.Caddyfile
 import CaddyModel.C15.Recorder
+import CaddyModel.C15.Sidecar
 
 namespace CaddyModel.C15
 
@@ -302,8 +303,47 @@ def handleOrdinary (recMode : Option Nat) : List String → String
     | _, _, _, _, _, _, _, _, _ => "bad-op"
   | _ => "bad-op"
 
+/-! ### the `sc` op: file_server's sidecar selection on a fault-injecting file system
+    `sc <order> <faults> <ae> <encode> <method> <etag>`; answer `sc status=<n>[ ce=<c|-> body=<plain|c|none>]` -/
+
+def vBr : Bytes := [98, 114]
+
+def parseScOrder (s : String) : Option (List Bytes) :=
+  if s == "-" then some [] else
+  ((s.splitOn ",").mapM (fun n => if n == "gzip" || n == "zstd" || n == "br" then some (str n) else none)).bind
+    (fun l => if noDups l then some l else none)
+
+def sideStateOf : Char → Option SideState
+  | '-' => some .absent
+  | 'd' => some .absent
+  | 'o' => some .ok
+  | 'x' => some .openRefused
+  | 'n' => some .openRefused
+  | 'b' => some .openRefused   -- any other Open error on an existing regular file: `mapDirOpenError` turns it into not-exist
+  | _ => none
+
+def handleSc (order faults ae enc method etag : String) : String :=
+  match parseScOrder order, faults.toList.mapM sideStateOf, optHex ae with
+  | some ord, some [sg, sz, sb], some aeB =>
+    if !((enc == "0" || enc == "1") && (method == "G" || method == "H" || method == "P") &&
+         (etag == "0" || etag == "1" || etag == "2")) then "bad-op"
+    else if !aeSupported aeB then "unsupported"
+    else
+      match serveFile false (acceptedEncodings aeB false ord) (fun c => ord.contains c)
+          (fun c => if c == vGzip then sg else if c == vZstd then sz else if c == vBr then sb else .absent)
+          (etag == "2") (method == "P") (method == "H") with
+      | .error status _ => "sc status=" ++ toString status
+      | .served status ce body =>
+        "sc status=" ++ toString status ++ " ce=" ++ (match ce with | some c => bytesToString c | none => "-") ++
+        " body=" ++ (match body with
+          | none => "none"
+          | some .plain => "plain"
+          | some (.sidecar c) => bytesToString c)
+  | _, _, _ => "bad-op"
+
 def handle : List String → String
   | ["cf", args, block] => handleCf args block
+  | ["sc", order, faults, ae, enc, method, etag] => handleSc order faults ae enc method etag
   | "rr" :: mode :: rest =>
     if mode == "0" then handleOrdinary (some 0) rest
     else if mode == "1" then handleOrdinary (some 1) rest
